@@ -8,6 +8,15 @@ ALL = ['C%02d' % i for i in range(1, 21)]
 
 # id -> (technique, level text, level note, design ref)
 CHECKS = {
+    'C05': (
+        'round-trip and metamorphic testing over Hypothesis-generated schemas, documents and data mutations',
+        'For docgen schemas and valid-by-construction documents: decode -> encode with JsonML and DataElement (always) and '
+        'default / BadgerFish / GData (where the model keeps same-named children contiguous and content is not mixed) must give '
+        'XML that is valid, structurally equal, typed-value equal and that decodes to the same data; strict encode of data '
+        'mutated by drop / duplicate / retype / reorder / rename / wrap must either raise a library error or return XML '
+        'the schema accepts. Crashes of encode on malformed data are known findings identified by call site.',
+        'trusted: docgen validity by construction; equality is schema-normalised (use_defaults=False, typed comparison)',
+        'DESIGN.md section 3 C05'),
     'C08': (
         'exhaustive small tables + seeded larger tables against a value-space node-table reference',
         'Templates (1-2 fields on attributes or child elements; decimal/integer/boolean/string/QName; flat and nested scopes) '
